@@ -145,22 +145,36 @@ func DeserializeOptions(opts []string) (map[string]string, lcontext.LContext, er
 	return options, ltx, nil
 }
 
+// The before context is buffered in memory, so don't accept absurd values from the wire.
+const maxLContextValue = 1024 * 1024
+
+func atoiLContext(key, val string) (int, error) {
+	iVal, err := strconv.Atoi(val)
+	if err != nil {
+		return 0, err
+	}
+	if iVal < 0 || iVal > maxLContextValue {
+		return 0, fmt.Errorf("Value of option '%s' out of range: %s", key, val)
+	}
+	return iVal, nil
+}
+
 func setOption(key, val string, options map[string]string, ltx *lcontext.LContext) (map[string]string, error) {
 	switch key {
 	case "before":
-		iVal, err := strconv.Atoi(val)
+		iVal, err := atoiLContext(key, val)
 		if err != nil {
 			return options, err
 		}
 		ltx.BeforeContext = iVal
 	case "after":
-		iVal, err := strconv.Atoi(val)
+		iVal, err := atoiLContext(key, val)
 		if err != nil {
 			return options, err
 		}
 		ltx.AfterContext = iVal
 	case "max":
-		iVal, err := strconv.Atoi(val)
+		iVal, err := atoiLContext(key, val)
 		if err != nil {
 			return options, err
 		}
